@@ -1,24 +1,24 @@
-\* C08 quick: two small messages, 2+2 flushes, acks and acks of acks, any loss
+\* C13 quick: unreliable messages around the packing threshold
 SPECIFICATION Spec
 CONSTANTS
-  ChSC <- Ch_RO
-  ChCS <- Ch_RO
-  SeqBase = 0
-  MidBase = 0
+  ChSC <- Ch_U
+  ChCS <- Ch_U
+  SeqBase = 60
+  MidBase = 16381
   Budget = 60000
-  Workload <- WL_RO_two_small
-  MaxFlushS = 2
+  Workload <- WL_pack_U
+  MaxFlushS = 1
   MaxFlushC = 2
   MaxTicks = 0
   Dts = {300}
   MaxDeliver = 1
   HealDt = 300
-  HealRounds = 3
-  Bound = 3
-  HealLose = {TRUE, FALSE}
+  HealRounds = 1
+  Bound <- NoBound
+  HealLose = {FALSE}
   Reorder = TRUE
   RecvAnywhere = FALSE
-  PropsOn <- P_C08
+  PropsOn <- P_C13
   MaxHostile = 0
   HostileSet = "none"
   ExportAll = TRUE
